@@ -1,6 +1,6 @@
 (* C15 - Validation errors identify the kind of failure. *)
 From B39 Require Import Proofs.Calls.
-From B39 Require Import Lib.Base Lib.Sha256 Lib.Nfkd Model.GenTypes Model.Model Spec.Bip39Spec.
+From B39 Require Import Lib.Base Lib.Utf8 Lib.Sha256 Lib.Nfkd Model.GenTypes Model.Model Spec.Bip39Spec.
 From B39 Require Import Proofs.Tables Proofs.LibContract Proofs.Validate Proofs.Sound Proofs.Api.
 
 (* for every string whose NFKD form the library computes exactly (xsafe; every string made of list
@@ -11,20 +11,20 @@ From B39 Require Import Proofs.Tables Proofs.LibContract Proofs.Validate Proofs.
      else checksum bits wrong                               -> ErrChecksumIncorrect
      else                                                   -> nil                                  *)
 Theorem C15_classification : forall lib, lib_contract lib -> forall (name : string) (l : Z) (s : list byte),
-  supported name l -> xsafe s = true ->
+  supported name l -> utf8_valid s = true -> xsafe s = true ->
   CheckMnemonicL lib s l =
   Ret (err_of_verdict (classify sha256 (tbl_get (canon name)) (split_at (fun b => Byte.eqb b x20) (nfkd s)))).
 Proof. exact classification. Qed.
 
-(* a wrong word count gives ErrWordLen for EVERY string *)
+(* a wrong word count gives ErrWordLen for EVERY valid UTF-8 string (xsafe or not) *)
 Theorem C15_count : forall lib, lib_contract lib -> forall (name : string) (l : Z) (s : list byte),
-  supported name l -> ~ valid_wc (length (split_at (fun b => Byte.eqb b x20) (nfkd s))) ->
+  supported name l -> utf8_valid s = true -> ~ valid_wc (length (split_at (fun b => Byte.eqb b x20) (nfkd s))) ->
   CheckMnemonicL lib s l = Ret (Some ErrWordLen).
 Proof. exact wrong_count. Qed.
 
 (* outside xsafe, an acceptable count still gives an unknown-word error naming a token not in the list *)
 Theorem C15_outside_xsafe : forall lib, lib_contract lib -> forall (name : string) (l : Z) (s : list byte),
-  supported name l -> xsafe s = false -> valid_wc (length (split_at (fun b => Byte.eqb b x20) (nfkd s))) ->
+  supported name l -> utf8_valid s = true -> xsafe s = false -> valid_wc (length (split_at (fun b => Byte.eqb b x20) (nfkd s))) ->
   exists t i, CheckMnemonicL lib s l = Ret (Some (ErrUnknownWord t i)) /\ ~ In t (canon name).
 Proof. exact outside_xsafe. Qed.
 
